@@ -44,6 +44,7 @@ def run(ctx):
     for k in KEYS[2:]:
         conds.append(xh.Cond(f"from_dict focus=annotations[].{k}", "C16.py", "_ob", {"focus": "annotations", "inner_key": k, "carve": carve}, timeout=tmo))
     conds.append(xh.Cond("ClickObj.project error mapping", "C16.py", "_proj", {}, timeout=tmo, twin="_proj_reach"))
+    conds.append(xh.Cond("from_toml: every exception class of tomlkit (subclasses of TOMLKitError, read from the installed library) raised by loads() becomes a parse error naming the file", "C16.py", "_tk", {}, timeout=tmo, twin="_tk_reach"))
     nf = 2 if tier == "quick" else 3
     for subset in (False, True):
         conds.append(xh.Cond(f"per-file exception funnel nfiles={nf} subset={subset}", "C16.py", "_funnel", {"nfiles": nf, "subset": subset}, timeout=tmo * 3, twin="_funnel_reach"))
@@ -59,19 +60,21 @@ def run(ctx):
         "reuse.download.download_license (URL construction; urlopen modelled)",
         "reuse.extract.decoded_text_from_binary on symbolic bytes (CrossHair's symbolic UTF-8 codec)",
         "reuse.global_licensing.ReuseTOML.from_dict, AnnotationsItem.from_dict, converters and validators (executed under CrossHair per value shape)",
+        "reuse.global_licensing.ReuseTOML.from_toml (error mapping; tomlkit.loads stubbed to raise)",
         "reuse.cli.common.ClickObj.project (error mapping; Project.from_directory stubbed to raise)",
         "reuse.report.ProjectReport.generate / ProjectSubsetReport.generate / _MultiprocessingContainer.__call__ / _process_error (FileReport.generate stubbed to raise per file)",
     ]
     ctx.bounds = {
         "shape": "each key in turn takes every TOML type {absent,str,int,float,bool,datetime,list,table}, list/table elements again every type, nesting <= 2; leaves from 8 strings / 4 integers; the other keys hold valid values",
         "project errors": "every exception class Project.from_directory documents (parse, parse-type, parse-value, conflict, OSError and 4 subclasses) x root given or not x both include flags",
+        "from_toml errors": "every subclass of tomlkit.exceptions.TOMLKitError present in the installed tomlkit (20 classes in 0.13), raised by loads()",
         "funnel": f"{nf} files, each succeeding or raising one of 11 exception classes",
         "annotate content": "6 content kinds (plain, empty, unparseable expression on top / further down / alone, valid header + unparseable one further down) x 6 unparseable expressions x 4 file types x decodable or not x replace x skip-existing x fallback-dot-license",
         "spdx licence texts": "1-2 LicenseRef- texts, each decodable or not",
         "download identifier": "'My<c>License' with c any of the 128 ASCII characters or one of 9 other code points; urlopen replaced by its documented path validation + a 404 answer",
         "file bytes": f"every byte string of 1..{nbytes} bytes (covers every UTF-8 sequence length and every malformed prefix)",
     }
-    ctx.stubs = ["open() in text mode: returns the text or raises UnicodeDecodeError (its documented contract on bytes that are not UTF-8) unless errors= says otherwise", "Project.from_directory (raises the chosen exception)", "FileReport.generate (raises the chosen exception or returns a minimal report)", "reuse.global_licensing._LICENSING.parse runs natively on concrete strings"]
+    ctx.stubs = ["open() in text mode: returns the text or raises UnicodeDecodeError (its documented contract on bytes that are not UTF-8) unless errors= says otherwise", "tomlkit.loads (raises the chosen exception class; which inputs make the real parser raise which class is tomlkit's business)", "Project.from_directory (raises the chosen exception)", "FileReport.generate (raises the chosen exception or returns a minimal report)", "reuse.global_licensing._LICENSING.parse runs natively on concrete strings"]
     ctx.outside = [
         "tomlkit's and python-debian's own parsers on arbitrary bytes",
         "file contents longer than the byte bound; expressions other than the listed unparseable ones (the licence parser is a third-party library run concretely)",
@@ -100,6 +103,8 @@ def run(ctx):
             return f"download-url:{ex['identifier']!r}", f"download_license({ex['identifier']!r}) -> {ex['url']}: {ex['why']}", {"harness": "RD.py::_url", "explain": ex}
         if c.func == "_decb":
             return f"decode:{ex['why'][:40]}", f"file content {bytes(ex['bytes'])!r} is decoded to {ex['decoded']}: {ex['why']}", {"harness": "DEC.py::_decb", "explain": ex}
+        if c.func == "_tk":
+            return f"from_toml:{ex['exception']}", f"ReuseTOML.from_toml with tomlkit.loads raising {ex['exception']}: {ex['outcome']}", {"harness": "C16.py::_tk", "explain": ex}
         if c.func == "_proj":
             return f"project:{ex['exception']}", f"ClickObj.project with Project.from_directory raising {ex['exception']}: {ex['outcome']}", {"harness": "C16.py::_proj", "explain": ex}
         return f"funnel:{ex['faults']}", f"per-file faults {ex['faults']} (subset={ex['subset']}): {ex['outcome']}", {"harness": "C16.py::_funnel", "explain": ex}
